@@ -163,24 +163,21 @@ KF_C13_1(X) ==
   /\ \A i \in DOMAIN X.t.rw :
         X.t.rw[i].exc \in RwAllowed(X, X.t.rw[i]) \cup {"AssertionError", "IndexError"}
 
-\* KF-C12-4: ARM64 / MIPS32, a direct transfer to a constant target trips
-\* `assert len(fixups) == 1` in assemble() instead of being refused.
-KF_C12_4(V, run) ==
-  /\ OpenDefect(V) /\ run.stage # "finalize" /\ run.stage # "done"
-  /\ "UnsupportedAssemblyError" \in AllowedRefusals(V)
+\* KF-C12-5: `.balign` between an ASCII literal and the NUL that terminates it
+\* is applied behind the NUL.
+KF_C12_5(V) == AlignMovedPastNul(V)
 
 KfTags(X, clause) ==
+  (IF clause = "C12_Alignment"
+      /\ \A i \in DOMAIN Runs(X) : Runs(X)[i].V.exc = "" => KF_C12_5(Runs(X)[i].V)
+   THEN {"KF-C12-5"} ELSE {})
+  \cup
   (IF clause = "C12_EdgeShape"
       /\ \A i \in DOMAIN Runs(X) : Runs(X)[i].V.exc = "" =>
             (C12_EdgeShape(Runs(X)[i].V) \/ KF_C12_1(Runs(X)[i].V))
    THEN {"KF-C12-1"} ELSE {})
   \cup
   (IF clause = "C13_Completes" /\ Completes(X.Vc) /\ KF_C13_1(X) THEN {"KF-C13-1"} ELSE {})
-  \cup
-  (IF clause \in {"C12_Completes", "C13_Completes"}
-      /\ \A i \in DOMAIN Runs(X) : (Completes(Runs(X)[i].V) \/ KF_C12_4(Runs(X)[i].V, Runs(X)[i].r))
-      /\ (clause = "C13_Completes" /\ RwRuns(X) => RwCompletes(X))
-   THEN {"KF-C12-4"} ELSE {})
 
 (***************************************************************************)
 (* Clauses  <<name, in-domain, holds>>                                     *)
@@ -273,7 +270,8 @@ VerdictRw(t) ==
 VerdictOf(t) == IF t.kind = "rwx" THEN VerdictRw(t) ELSE Verdict(t)
 
 TInit == /\ tid = 1
-         /\ RwInit
+         /\ rwExt = [pre |-> "off", ref |-> ""] /\ rwSyms = {} /\ rwGot = 0 /\ rwOps = <<>>
+         /\ rwPh = "trace" /\ rwPid = 0 /\ rwTodo = <<>> /\ rwMade = <<>>
          /\ par = [x |-> 0] /\ prog = <<>> /\ inp = <<>> /\ ph = "trace" /\ st = InitState /\ fin = InitState
 TNext == /\ tid <= Len(Traces)
          /\ PrintT("VERDICT " \o ToJson(VerdictOf(Traces[tid])))
